@@ -141,8 +141,11 @@ ScopeApply0(p, e) ==
     [] e.ev = "setdl" ->
          LET i == Pos(p, e.t, e.n) IN
          IF i = 0 THEN [p |-> p, bad |-> {}]
-         ELSE \* a deadline that is already due cancels at once
-              [p |-> [p EXCEPT !.sc[e.t][i].dl = e.dl, !.sc[e.t][i].moved = TRUE,
+         ELSE \* a deadline that is already due cancels at once.  `moved` records a reassignment made
+              \* AFTER the scope was cancelled / its deadline had fired: only then the statement excuses
+              \* fail_after from reporting faithfully (a deadline moved while still pending does not)
+              [p |-> [p EXCEPT !.sc[e.t][i].dl = e.dl,
+                               !.sc[e.t][i].moved = @ \/ p.sc[e.t][i].called \/ e.now >= p.sc[e.t][i].dl,
                                !.sc[e.t][i].called = @ \/ e.now >= e.dl],
                bad |-> {}]
     [] e.ev = "opstart" ->
